@@ -6,6 +6,7 @@ draw `k / 2^24` (f32) and the tick-grid repair of a clamped sell price. Float sa
 are exercised on the real agents by the per-run audit, not proved.
 -/
 import Bourse.Model.Agents
+import Bourse.Lemmas.PriceHelpers
 
 namespace Bourse.Props.C16
 open Bourse
@@ -160,5 +161,55 @@ example :
     ((c.updateOne 0 none e (Xoro.seed 11)).map fun r =>
       r.2.1.market.books.map (fun b => b.orders.map (fun x => (x.order.price, x.order.vol, x.order.trader)))) = some [[(16, 4, 0)]] := by
   decide
+
+/-! ### Noise and momentum agents: the limit prices they quote
+
+`place_buy_limit_order` / `place_sell_limit_order` (and their multi-asset twins) in exact
+arithmetic (`Model/PriceHelpers.lean`, compared with the real `f64` helpers on dyadic inputs on every
+run): whatever the price distribution returns — any finite value of either sign, or `+∞` — -/
+
+/-- a **buy** is quoted on the tick grid, at or below the mid-price the agent observed; -/
+theorem buy_price_valid (mid : Rat) (dist : Option Rat) (tick : Nat) (ht : 0 < tick)
+    (h0 : 0 ≤ mid) (h1 : mid ≤ (MAXP : Rat)) :
+    Helpers.buyPrice mid dist tick % tick = 0 ∧ (Helpers.buyPrice mid dist tick : Rat) ≤ mid :=
+  Helpers.buyPrice_valid mid dist tick ht h0 h1
+
+/-- a **sell** is quoted on the tick grid — also when the rounded price was clamped to `Price::MAX`,
+which is off the grid for most tick sizes (the former abort) — and at or above the observed
+mid-price, for every mid-price at least one tick below `Price::MAX`. -/
+theorem sell_price_valid (mid : Rat) (dist : Option Rat) (tick : Nat) (ht : 0 < tick)
+    (h0 : 0 ≤ mid) (h1 : mid + (tick : Rat) ≤ (MAXP : Rat)) :
+    Helpers.sellPrice mid dist tick % tick = 0 ∧ mid ≤ (Helpers.sellPrice mid dist tick : Rat) :=
+  Helpers.sellPrice_valid mid dist tick ht h0 h1
+
+/-- Both are prices a book with that tick size accepts (`create_ok_iff` of C12: a limit order can be
+created iff its price is a multiple of the tick), so the agents' `unwrap()` of the placement result
+cannot abort the simulation. -/
+theorem quoted_prices_accepted (mid : Rat) (dist : Option Rat) (tick : Nat) (ht : 0 < tick)
+    (h0 : 0 ≤ mid) (h1 : mid ≤ (MAXP : Rat)) (b : Book) (hb : b.tick = tick) (vol tr : Nat) :
+    (∃ id, (b.createOrder .bid vol tr (some (Helpers.buyPrice mid dist tick))).2 = .ok id) ∧
+    (∃ id, (b.createOrder .ask vol tr (some (Helpers.sellPrice mid dist tick))).2 = .ok id) := by
+  have hbuy := (Helpers.buyPrice_valid mid dist tick ht h0 h1).1
+  have hsell : Helpers.sellPrice mid dist tick % tick = 0 := by
+    simp only [Helpers.sellPrice]
+    have := Nat.mod_add_div (Helpers.roundPriceUp (dist.map fun d => mid + Helpers.absR d) tick) tick
+    have h2 : ∀ p : Nat, p - p % tick = tick * (p / tick) := by
+      intro p; have := Nat.mod_add_div p tick; omega
+    rw [h2]; exact Nat.mul_mod_right _ _
+  constructor
+  · refine ⟨b.orders.length, ?_⟩
+    simp [Book.createOrder, hb, hbuy]
+  · refine ⟨b.orders.length, ?_⟩
+    simp [Book.createOrder, hb, hsell]
+
+/-- Concrete instances (kernel evaluation), including the unit tests of `common.rs` and the clamp at
+both ends: tick 2, mid 100.5. -/
+example :
+    Helpers.roundPriceUp (some 5) 2 = 6 ∧ Helpers.roundPriceUp (some (21/10)) 2 = 4 ∧
+    Helpers.roundPriceDown (some (39/10)) 4 = 0 ∧ Helpers.roundPriceDown (some (-22/10)) 4 = 0 ∧
+    Helpers.roundPriceUp (some (4294967297 : Rat)) 4 = 4294967295 ∧
+    Helpers.buyPrice (201/2) (some (7/4)) 2 = 98 ∧ Helpers.sellPrice (201/2) (some (7/4)) 2 = 104 ∧
+    Helpers.buyPrice (201/2) (some 1000) 2 = 0 ∧ Helpers.sellPrice (201/2) none 2 = 4294967294 ∧
+    Helpers.sellPrice (201/2) (some 5000000000) 7 = 4294967292 := by decide +kernel
 
 end Bourse.Props.C16
